@@ -49,6 +49,21 @@ Section Bridge.
     map (gen_writeback_item d xval cum) (seq 0 nvars) = writeback d xval cum nvars.
   Proof. reflexivity. Qed.
 
+  (* "Calculate and save sensitivities": the generated row of one response is Model/MMAvars.sens_row, hence
+     (MMAvarsP.sens_row_blocks) block i of the generated row is the sensitivity signal i holds in THIS iteration, or
+     0*state when it holds none; a row / matrix kept across iterations, or entries left unwritten for a None, is rejected by
+     the translator or breaks this lemma before any input is tried *)
+  Theorem gen_sens_row_eq (zmul : A -> A) states sens : gen_sens_row zmul states sens = sens_row zmul states sens.
+  Proof. reflexivity. Qed.
+
+  Theorem gen_sens_row_blocks (zmul : A -> A) (states : list (sval A)) (sens : list (option (sval A))) :
+    Forall2 sens_fits states sens ->
+    length (gen_sens_row zmul states sens) = total states /\
+    forall i, i < length states ->
+      slice (gen_sens_row zmul states sens) (nth i (cumlens states) 0) (nth (S i) (cumlens states) 0)
+      = match nth i sens None with Some g => flat g | None => map zmul (flat (nth i states (Arr []))) end.
+  Proof. rewrite gen_sens_row_eq. apply sens_row_blocks. Qed.
+
   (* ---- consequences for the generated code *)
   Theorem gen_expand_dtype_float64 zero xval nvars cum s r :
     (gen_expand_xmin d conv zero xval nvars cum s = Some r -> fst r = F64) /\
